@@ -12,7 +12,7 @@ import Toodee.Impl.Recv
 namespace Toodee.Driver
 open Toodee
 
-inductive Elem | u32 | cell | zst | unit | nan | wide
+inductive Elem | u32 | cell | zst | unit | nan | wide | widecell
 deriving DecidableEq, Repr
 
 /-- zero-sized kinds: positions are not observable, every value is 0 (`zst` = a ledgered unit struct with `Drop`; `unit` = `()`,
@@ -35,7 +35,7 @@ def Elem.copyOps : Elem → Bool
 
 /-- kinds with a drop ledger -/
 def Elem.ledgered : Elem → Bool
-  | .cell | .zst => true
+  | .cell | .zst | .widecell => true
   | _ => false
 
 /-- a resolved receiver: the Impl-model's `Recv` (Impl/Recv.lean) over the driver's element representation -/
